@@ -293,7 +293,7 @@ class Partitioned(struct.PyTreeNode, AxisMetadata[A]):
 
   def to_nnx_metadata(self) -> dict[str, Any]:
     """Return a dict of metadata that can translate into an `nnx.Variable`."""
-    metadata = vars(self)
+    metadata = dict(vars(self))  # copy: vars() is the instance's own __dict__
     metadata['sharding'] = metadata.pop('names')
     return metadata
 
